@@ -56,11 +56,17 @@ const (
 	BodyEOFLine       BodyKind = "eofline"
 	BodyEmpty         BodyKind = "empty" // zero bytes
 	BodyBig           BodyKind = "big"   // > 1024 bytes (the Writer emits the dictionary before the data is complete)
+	// BodyBigEOLEndstream / BodyBigEOLEndobj: > 1024 bytes with a line that
+	// starts with endstream (also followed by a line endobj) / with endobj.
+	// On a non-seekable sink such a stream gets an indirect /Length; as long as
+	// that can be resolved the body is unambiguous.
+	BodyBigEOLEndstream BodyKind = "bigeolendstream"
+	BodyBigEOLEndobj    BodyKind = "bigeolendobj"
 )
 
 // AllBodies lists every body kind.
 var AllBodies = []BodyKind{BodyPlain, BodyBinary, BodyEOL, BodyCR, BodyEndstream, BodyEOLEndstream, BodyEndobj, BodyMidHeader,
-	BodyTrailerLine, BodyXrefLine, BodyStartxrefLine, BodyEOFLine, BodyEmpty, BodyBig}
+	BodyTrailerLine, BodyXrefLine, BodyStartxrefLine, BodyEOFLine, BodyEmpty, BodyBig, BodyBigEOLEndstream, BodyBigEOLEndobj}
 
 // MarkerBodies are the body kinds with a line-initial trailer keyword.
 var MarkerBodies = []BodyKind{BodyTrailerLine, BodyXrefLine, BodyStartxrefLine, BodyEOFLine}
@@ -81,18 +87,19 @@ var AllFilters = []string{"Flate", "LZW", "ASCIIHex", "ASCII85", "RunLength"}
 // a PDF 1.7 file with a cross-reference table, no object streams, no filters,
 // no encryption, written to a non-seekable sink.
 type DocOptions struct {
-	Version    pdf.Version // 0 means pdf.V1_7
-	XRefStream bool        // cross-reference stream (needs Version >= 1.5); false: classic table + trailer
-	ObjStm     bool        // non-stream objects are written through WriteCompressed (needs XRefStream)
-	Seekable   bool        // the sink can seek: /Length is patched in place; otherwise it is an indirect object
-	Filters    []string    // pool of filters for streams (subset of AllFilters); each stream uses 0..2 of them
-	Encrypt    bool        // user password "user", owner password "owner"
-	Objects    int         // number of generated objects besides the page tree root (default 8)
-	MaxBody    int         // bound for ordinary stream bodies (default 120)
-	Bodies     []BodyKind  // admissible stream bodies (default: plain, binary, eol)
-	NoStreams  bool        // no stream objects at all
-	MinStreams int         // at least this many stream objects (the first generated objects)
-	Info       bool        // fill in the Info dictionary
+	Version     pdf.Version // 0 means pdf.V1_7
+	XRefStream  bool        // cross-reference stream (needs Version >= 1.5); false: classic table + trailer
+	ObjStm      bool        // non-stream objects are written through WriteCompressed (needs XRefStream)
+	Seekable    bool        // the sink can seek: /Length is patched in place; otherwise it is an indirect object
+	Filters     []string    // pool of filters for streams (subset of AllFilters); each stream uses 0..2 of them
+	Encrypt     bool        // user password "user", owner password "owner"
+	Objects     int         // number of generated objects besides the page tree root (default 8)
+	MaxBody     int         // bound for ordinary stream bodies (default 120)
+	Bodies      []BodyKind  // admissible stream bodies (default: plain, binary, eol)
+	NoStreams   bool        // no stream objects at all
+	MinStreams  int         // at least this many stream objects (the first generated objects)
+	CycleBodies bool        // the k-th stream gets Bodies[k mod len(Bodies)] instead of a random element
+	Info        bool        // fill in the Info dictionary
 }
 
 // UserPassword is the password of encrypted generated documents.
@@ -256,6 +263,7 @@ func NewDocPlan(seed int64, opt DocOptions) (*DocPlan, error) {
 	p.objs = append(p.objs, planObj{kind: "dict", val: pdf.Dict{"Type": pdf.Name("Pages"), "Kids": pdf.Array{}, "Count": pdf.Integer(0)}})
 	kinds := []string{"dict", "dict", "array", "int", "real", "name", "string", "bool", "null", "ref", "stream", "stream", "stream"}
 	afterMarker := false
+	nstreams := 0
 	for i := 0; i < n; i++ {
 		k := kinds[rng.Intn(len(kinds))]
 		if i < len(kinds) && n >= len(kinds) {
@@ -295,6 +303,10 @@ func NewDocPlan(seed int64, opt DocOptions) (*DocPlan, error) {
 		case "stream":
 			po.dict = pdf.Dict{"K": g.scalar(), "Sub": g.dict(1)}
 			po.bodyK = opt.Bodies[rng.Intn(len(opt.Bodies))]
+			if opt.CycleBodies {
+				po.bodyK = opt.Bodies[nstreams%len(opt.Bodies)]
+			}
+			nstreams++
 			po.body = g.body(po.bodyK, opt.MaxBody)
 			afterMarker = isMarkerBody(po.bodyK)
 			if len(opt.Filters) > 0 && !afterMarker {
@@ -658,6 +670,15 @@ func (g *valGen) body(k BodyKind, max int) []byte {
 	case BodyMidHeader:
 		b = append(text(n/2+1), "x 7 0 obj (not an object) endobj "...)
 		b = append(b, text(n/2)...)
+	case BodyBigEOLEndstream, BodyBigEOLEndobj:
+		b = text(600 + g.rng.Intn(300))
+		if k == BodyBigEOLEndstream {
+			b = append(b, []string{"\nendstream\n", "\r\nendstream\r\nendobj\r\n", "\nendstream\nendobj\n", "\rendstream "}[g.rng.Intn(4)]...)
+		} else {
+			b = append(b, []string{"\nendobj\n", "\r\nendobj\r\n"}[g.rng.Intn(2)]...)
+		}
+		b = append(b, text(600+g.rng.Intn(300))...)
+		b[len(b)-1] = 'Q'
 	case BodyBig:
 		b = text(1100 + g.rng.Intn(600))
 		if g.rng.Intn(2) == 0 {
